@@ -182,6 +182,7 @@ def normalise_site(detail):
 class Spec:
     def __init__(self, **kw):
         self.coq_targets = kw.get("coq_targets", [])
+        self.thorough_rounds = kw.get("thorough_rounds", 6)
         self.module = kw.get("module", "")
         self.theorems = kw.get("theorems", [])
         self.run = kw["run"]
@@ -1325,7 +1326,10 @@ def run_c11(ctx):
                     ctx.fail("wider_more_lines", c2, "wrap_column=%d gives %d lines, wrap_column=%d gives %d" % (w2, o2.count(b"\n"), w1, o1.count(b"\n")),
                              observed=o2.hex()[:2000], expected=o1.hex()[:2000], narrow_overflows=bool(maxlen(o1) > w1), wide_overflows=bool(maxlen(o2) > w2))
                 if maxlen(o1) <= w1 and maxlen(o2) > w2:
-                    ctx.fail("fits_not_monotone", c2, "every line fits at wrap_column=%d but not at %d" % (w1, w2), observed=o2.hex()[:2000])
+                    ls = [l.rstrip(b"\r") for l in o2.split(b"\n")]
+                    over = [[ls[k - 1].decode("utf-8", "replace") if k else "", ls[k].decode("utf-8", "replace")] for k in range(len(ls)) if len(ls[k]) > w2]
+                    ctx.fail("fits_not_monotone", c2, "every line fits at wrap_column=%d but not at %d" % (w1, w2), observed=o2.hex()[:2000],
+                             wide=w2, over_lines=over[:8], over_count=len(over))
     ctx.hypotheses["the search returns (an equivalent of) a minimiser over a width-independent candidate set"] = "width pairs on the real formatter (the theorems are supporting lemmas only)"
 
 
@@ -1807,6 +1811,7 @@ def run_c19(ctx):
 
 
 PROPS["C16"] = Spec(
+    thorough_rounds=2,
     coq_targets=["theories/Properties/C16.v"], module="Properties.C16",
     theorems=["C16_write_then_truncate", "C16_files_mode_eq_stdout", "C16_files_mode_eq_stdout_utf", "C16_legacy_noncanonical_refuted", "C16_check_iff_fixed",
               "C16_ro_modes_no_write", "C16_decode_error_no_write", "C16_encode_error_file_state"],
@@ -1816,6 +1821,7 @@ PROPS["C16"] = Spec(
     assumptions=["file system and codec contracts (encoding_rs) for legacy code pages"],
 )
 PROPS["C17"] = Spec(
+    thorough_rounds=2,
     coq_targets=["theories/Properties/C17.v"], module="Properties.C17",
     theorems=["C17_utf8_decode_encode", "C17_utf8_encode_decode", "C17_utf16le_decode_encode", "C17_utf16be_decode_encode", "C17_utf16le_encode_decode",
               "C17_utf16be_encode_decode", "C17_bom_decides_encoding", "C17_bom_preserved", "C17_bytes_written_spec", "C17_malformed_rejected", "C17_utf_roundtrip_identity"],
@@ -1825,6 +1831,7 @@ PROPS["C17"] = Spec(
     assumptions=["legacy codecs are parameters of the model"],
 )
 PROPS["C18"] = Spec(
+    thorough_rounds=2,
     coq_targets=["theories/Properties/C18.v"], module="Properties.C18",
     theorems=["C18_clear_makes_history_irrelevant", "C18_no_clear_refuted", "C18_batch_eq_solo", "C18_batch_exit_code", "C18_duplicates_refuted"],
     run=run_c18,
@@ -1833,6 +1840,7 @@ PROPS["C18"] = Spec(
     assumptions=["rayon's real interleavings are sampled, not enumerated"],
 )
 PROPS["C19"] = Spec(
+    thorough_rounds=2,
     coq_targets=["theories/Properties/C19.v", "theories/Proofs/PipelineProofs.v"], module="Properties.C19",
     theorems=["C19_find_config_nearest", "C19_find_config_probes", "C19_override_wins", "C19_file_over_defaults", "C19_defaults_last",
               "C19_option_file_wins", "C19_missing_option_file_is_error"],
